@@ -34,7 +34,7 @@ Section Facts.
   Definition checked (d : dev_state) (b61 : bytes) (resps : list msg) (to1d : option bytes) (k : pubkey) (pdn : bytes) : Prop :=
     exists prot unprot sig ovh num hm si xa halg hval mx hh pk es,
       let pl := VList [ovh; VInt num; hm; VBytes (d_nonce d); si; VBytes xa; VList [VInt halg; VBytes hval]; VInt mx] in
-      unm ty_prove_ovhdr b61 = Ok (VList [VMap prot; VMap unprot; pl; VBytes sig]) /\
+      sdec O_der O_rfc ty_prove_ovhdr b61 = Ok (VList [VMap prot; VMap unprot; pl; VBytes sig]) /\
       (* the proof is bound to this run: hash of the HelloDevice sent and its fresh nonce *)
       any_hash_of_alg halg = Some hh /\ O_hash hh (d_hello d) = hval /\
       (* signed by the key the message advertises, and that key is the one the voucher chain ends in *)
